@@ -271,6 +271,12 @@ def install2(ex):
         mag = ex.expect(args[0], sv.SPay, path, node)
         return sv.SPay(mag.e, args[1] if len(args) > 1 else None)
 
+    def unit_one(ex, path, args, kwargs, node):
+        # pint unit algebra is not modelled in the arithmetic: a unit is the real 1 (magnitudes only)
+        return sv.SReal(z3.RealVal(1))
+
+    ex.ext_models["pint.application_registry.Unit"] = unit_one
+    ex.pure_ext.add("tools.UNITS.Unit")
     ex.ext_models["numpy.save"] = np_save
     ex.ext_models["numpy.load"] = np_load
     ex.ext_models["os.remove"] = os_remove
